@@ -160,6 +160,21 @@ class CapLogger:
         self._rec("exception", msg, a, extra)
 
 
+class _LoggingShim:
+    """Stands in for the `logging` module inside the SDK's context module: the DEFAULT context logger
+    (`logging.getLogger()` looked up when the root context is built, i.e. before user code runs) becomes the capturing
+    logger; named loggers and everything else are the real thing."""
+
+    def __init__(self, run, real):
+        self._run, self._real = run, real
+
+    def getLogger(self, name=None):  # noqa: N802
+        return CapLogger(self._run) if name is None else self._real.getLogger(name)
+
+    def __getattr__(self, k):
+        return getattr(self._real, k)
+
+
 class ExecResult:
     def __init__(self):
         self.invocations: list[dict] = []  # {inv, outcome, status, result, error, raised, sched_outcome, steps, t0, t1, trace}
@@ -314,7 +329,7 @@ class Interp:
     # -- program ---------------------------------------------------------------------
     def handler(self, event, ctx):
         run = self.run
-        if self.case.get("caplog"):
+        if self.case.get("caplog") and self.case.get("caplog") != "default":
             ctx.set_logger(CapLogger(run))
         hb = self.prog.get("handler")
         if hb and hb.get("pre_raise"):
@@ -867,6 +882,9 @@ def run_execution(case: dict, *, max_invocations: int | None = None, hooks: dict
 
         ext = _D(ext)
     delivered_ext: set = set()
+    real_logging = sdk_context.logging
+    if case.get("caplog") == "default":
+        sdk_context.logging = _LoggingShim(run, real_logging)
     warm: dict = {}
     consecutive_raises = 0
     orig_cc = sdk_state.ExecutionState.create_checkpoint
@@ -1025,6 +1043,7 @@ def run_execution(case: dict, *, max_invocations: int | None = None, hooks: dict
             run.v("C18", "malformed_output", "wrapper", f"invocation {inv} returned {out!r}")
             break
     finally:
+        sdk_context.logging = real_logging
         sdk_state.ExecutionState.create_checkpoint = orig_cc
         sdk_child.CHECKPOINT_SIZE_LIMIT, sdk_execution.LAMBDA_RESPONSE_SIZE_LIMIT = saved_limits
     return run
